@@ -1,8 +1,227 @@
-(* C15 — Time intervals match the calendar exactly; mute/active gating follows them. *)
-From AM Require Import Base.Prelude Model.Calendar Model.TimeInterval Proofs.TimeIntervalProofs.
+(* C15 — Time intervals match the calendar exactly; mute/active gating follows them.
+   Only statements here; every proof is `exact <lemma>` from Proofs/CalendarProofs.v / Proofs/TimeIntervalProofs.v.
 
+   Reading guide. An instant is `unix : Z` (seconds). The zone database is the function argument
+   `tz : string -> Z -> Z` (zone name, instant |-> UTC offset in seconds); every theorem holds for EVERY such
+   function, hence across any daylight-saving rule. Civil fields come from Model/Calendar.v, which is proved
+   below to be the proleptic Gregorian calendar on all of Z. *)
+From AM Require Import Base.Prelude Model.Calendar Model.TimeInterval Proofs.CalendarProofs Proofs.TimeIntervalProofs.
+
+(* ================= the calendar ================= *)
+
+(* days -> (y,m,d) -> days is the identity, for EVERY day number z : Z (no bound) *)
+Theorem c15_civil_roundtrip_days z : let '(y, m, d) := civil_of_days z in days_of_civil y m d = z.
+Proof. exact (civil_roundtrip_days z). Qed.
+
+(* (y,m,d) -> days -> (y,m,d) is the identity on EVERY valid date (any year in Z, month 1..12, day 1..length) *)
+Theorem c15_civil_roundtrip_date y m d :
+  valid_date (y, m, d) = true -> civil_of_days (days_of_civil y m d) = (y, m, d).
+Proof. exact (civil_roundtrip_date y m d). Qed.
+
+(* every day number is a valid date *)
+Theorem c15_civil_valid z : valid_date (civil_of_days z) = true.
+Proof. exact (civil_valid z). Qed.
+
+(* the conversion IS the calendar: day 0 is 1970-01-01 and each next day number is the next calendar day
+   (day+1, or the 1st of the next month after the month's last day, or 1 January of the next year).
+   Together these two facts determine civil_of_days on all of Z. *)
+Theorem c15_civil_epoch : civil_of_days 0 = (1970, 1, 1).
+Proof. exact civil_epoch. Qed.
+Theorem c15_civil_step z : civil_of_days (z + 1) = next_day (civil_of_days z).
+Proof. exact (civil_step z). Qed.
+
+(* month lengths: 28/29/30/31 with the 4/100/400 leap rule *)
+Theorem c15_leap_rule y : is_leap y = true <-> (y mod 4 = 0 /\ y mod 100 <> 0) \/ y mod 400 = 0.
+Proof. exact (is_leap_spec y). Qed.
+Theorem c15_days_in_month_spec y m : 1 <= m <= 12 ->
+  (m = 2 -> days_in_month y m = if is_leap y then 29 else 28) /\
+  (m = 4 \/ m = 6 \/ m = 9 \/ m = 11 -> days_in_month y m = 30) /\
+  (m = 1 \/ m = 3 \/ m = 5 \/ m = 7 \/ m = 8 \/ m = 10 \/ m = 12 -> days_in_month y m = 31).
+Proof. exact (days_in_month_spec y m). Qed.
+Theorem c15_year_length y : year_length y = if is_leap y then 366 else 365.
+Proof. exact (year_length_spec y). Qed.
+
+(* weekday: Thursday (4) on day 0, advances by one modulo 7, period 7, always in 0..6 (Sunday = 0) *)
+Theorem c15_weekday_epoch : weekday 0 = 4.
+Proof. exact weekday_epoch. Qed.
+Theorem c15_weekday_step z : weekday (z + 1) = (weekday z + 1) mod 7.
+Proof. exact (weekday_step z). Qed.
+Theorem c15_weekday_period z : weekday (z + 7) = weekday z.
+Proof. exact (weekday_period z). Qed.
+Theorem c15_weekday_range z : 0 <= weekday z <= 6.
+Proof. exact (weekday_range z). Qed.
+
+(* civil fields of a local second count: date of floor(local/86400), its weekday, and
+   minute-of-day = Hour*60+Minute in [0,1440), with local = day*86400 + minute*60 + sec *)
+Theorem c15_civil_fields local :
+  let c := civil_fields local in
+  civil_of_days (local / 86400) = (c_year c, c_month c, c_day c) /\
+  c_wday c = weekday (local / 86400) /\
+  0 <= c_min c < 1440 /\
+  c_min c = ((local mod 86400) / 3600) * 60 + ((local mod 86400) mod 3600) / 60 /\
+  exists sec, 0 <= sec < 60 /\ local = (local / 86400) * 86400 + c_min c * 60 + sec.
+Proof. exact (civil_fields_spec local). Qed.
+
+(* ================= ContainsTime ================= *)
+
+(* The property's first sentence, for EVERY interval value (validated or not), every zone-offset function,
+   every instant and every own-location offset:
+   ContainsTime = true  <->  minute-of-day in some [start,end)  /\  weekday in some [b,e]  /\
+   day-of-month in some [b',e'] (negative bounds resolved against the month length) intersected with [1,dim]
+   /\ month in some [b,e] /\ year in some [b,e];  an absent (nil) field = True.
+   `in_some (Some []) P` is False: an explicitly empty field (`times: []`) matches nothing (DESIGN I3) — the
+   statement is exact there too; "empty matches everything" is about ABSENT fields. *)
+Theorem c15_contains_spec tz ti unix own_off :
+  contains tz ti unix own_off = true <->
+  calendar_statement ti (civil_fields (unix + eff_off tz ti unix own_off)).
+Proof. exact (contains_spec tz ti unix own_off). Qed.
+
+(* same thing as an equation between the code-shaped function and the executable statement *)
+Theorem c15_contains_eq_spec tz ti unix own_off :
+  contains tz ti unix own_off = spec_fields ti (civil_fields (unix + eff_off tz ti unix own_off)).
+Proof. exact (contains_eq_spec tz ti unix own_off). Qed.
+
+(* the two clamp calls are irrelevant once `begin > daysInMonth -> continue` has been passed *)
 Theorem c15_clamp_irrelevant dim day b e :
   1 <= day <= dim -> b <= dim ->
   ((clamp b (- dim) dim <=? day) && (day <=? clamp e (- dim) dim)) = ((b <=? day) && (day <=? e)).
 Proof. exact (clamp_irrelevant dim day b e). Qed.
-Print Assumptions c15_clamp_irrelevant.
+
+(* an interval with no field set contains every instant *)
+Theorem c15_unconstrained_contains_all tz loc unix own_off :
+  contains tz (mkTI None None None None None loc) unix own_off = true.
+Proof. exact (contains_unconstrained tz loc unix own_off). Qed.
+
+(* daylight saving: the verdict depends on the instant only through the local second count, so two instants
+   with the same wall clock (the repeated hour) get the same verdict, under any two offset functions *)
+Theorem c15_same_wall_clock_same_verdict tz tz' ti unix unix' own own' :
+  unix + eff_off tz ti unix own = unix' + eff_off tz' ti unix' own' ->
+  contains tz ti unix own = contains tz' ti unix' own'.
+Proof. intros H. unfold contains. rewrite H. reflexivity. Qed.
+
+(* ================= validators ================= *)
+
+(* parseTime accepts exactly HH:MM with 00<=HH<=23, 00<=MM<=59, and 24:00; the value is 60*HH+MM *)
+Theorem c15_parse_time_spec s v :
+  parse_time s = Some v <->
+  exists h1 h2 m1 m2 a b x y,
+    s = String h1 (String h2 (String (Ascii.ascii_of_N 58) (String m1 (String m2 EmptyString)))) /\
+    digit_val h1 = Some a /\ digit_val h2 = Some b /\ digit_val m1 = Some x /\ digit_val m2 = Some y /\
+    ((10 * a + b <= 23 /\ 10 * x + y <= 59) \/ (10 * a + b = 24 /\ 10 * x + y = 0)) /\
+    v = 60 * (10 * a + b) + (10 * x + y).
+Proof. exact (parse_time_spec s v). Qed.
+
+(* whatever the text-level parsers accept passes the range validator of its kind *)
+Theorem c15_parsed_time_range_valid st en r :
+  parse_time_range st en = Some r -> 0 <= r_b r < r_e r /\ r_e r <= 1440.
+Proof. intros H. apply valid_time_spec. exact (parse_time_range_valid st en r H). Qed.
+Theorem c15_parsed_range_valid k s r : parse_range k s = Some r -> kind_valid k r = true.
+Proof. exact (parse_range_valid k s r). Qed.
+
+(* an accepted day-of-month range is non-empty before it is cut to the month, for every month length *)
+Theorem c15_valid_dom_nonempty r dim :
+  valid_dom r = true -> 28 <= dim <= 31 -> resolve_dom dim (r_b r) <= resolve_dom dim (r_e r).
+Proof. exact (valid_dom_nonempty r dim). Qed.
+
+(* ================= Intervener.Mutes and the two stages ================= *)
+
+(* Mutes over known names: muted iff some named interval contains now; the returned names are exactly those
+   (as a set; a name is repeated once per containing interval) *)
+Theorem c15_mutes_spec tz m names now :
+  all_known m names ->
+  exists b l, mutes tz m names now = Ok (b, l) /\
+    (b = true <-> exists n, muted_by tz m names now n) /\
+    (forall n, In n l <-> muted_by tz m names now n).
+Proof. exact (mutes_spec tz m names now). Qed.
+
+Theorem c15_mutes_unknown_name tz m names now :
+  ~ all_known m names -> mutes_names tz m names now = Err "unknown-interval".
+Proof. exact (mutes_names_unknown tz m names now). Qed.
+
+(* mute stage: alerts pass iff no mute interval contains now; marker := names of the containing intervals *)
+Theorem c15_mute_stage tz m route gkey mute active now :
+  all_known m mute ->
+  exists p l, time_mute_stage tz m (mkCtx (Some route) (Some gkey) (Some mute) active (Some now))
+              = mkSRes p None (Some l) /\
+    (p = true <-> forall n, ~ muted_by tz m mute now n) /\
+    (forall n, In n l <-> muted_by tz m mute now n).
+Proof. exact (mute_stage_spec tz m route gkey mute active now). Qed.
+
+(* active stage: alerts pass iff the active list is empty or some active interval contains now;
+   marker := all active names when blocked, nothing otherwise *)
+Theorem c15_active_stage tz m route gkey mute active now :
+  all_known m active ->
+  exists p, time_active_stage tz m (mkCtx (Some route) (Some gkey) mute (Some active) (Some now))
+            = mkSRes p None (Some (if p then [] else active)) /\
+    (p = true <-> active = [] \/ exists n, muted_by tz m active now n).
+Proof. exact (active_stage_spec tz m route gkey mute active now). Qed.
+
+(* the pipeline's pair of stages (active, then mute) at a flush instant `now`, whatever the marker held before:
+   the flush goes on to notification iff (active list empty or some active interval contains now) and no mute
+   interval contains now; a blocked flush passes no alert on and leaves the group marked muted with a non-empty
+   name list — all active names if blocked by the active stage, else exactly the muting interval names;
+   a passing flush leaves the group unmarked. *)
+Theorem c15_gating tz m route gkey mute active now mk0 :
+  all_known m mute -> all_known m active ->
+  let x := mkCtx (Some route) (Some gkey) (Some mute) (Some active) (Some now) in
+  let blocked_active := active <> [] /\ forall n, ~ muted_by tz m active now n in
+  let blocked_mute := exists n, muted_by tz m mute now n in
+  exists p mk, time_stages tz m x mk0 = (p, None, Some mk) /\
+    (p = true <-> ~ blocked_active /\ ~ blocked_mute) /\
+    (p = true -> mk = []) /\
+    (p = false -> mk <> []) /\
+    (blocked_active -> mk = active) /\
+    (~ blocked_active -> forall n, In n mk <-> muted_by tz m mute now n).
+Proof. exact (gating tz m route gkey mute active now mk0). Qed.
+
+(* ================= non-vacuity ================= *)
+
+(* a toy zone function with a DST rule: "Europe/Berlin" is +1h before 2024-03-31T01:00Z and +2h from then on *)
+Definition ex_tz (name : string) (unix : Z) : Z :=
+  if String.eqb name "Europe/Berlin" then (if unix <? 1711846800 then 3600 else 7200) else 0.
+(* weekdays 09:00-17:00, last three days of February..March, Berlin *)
+Definition ex_ti := mkTI (Some [mkR 540 1020]) (Some [mkR 1 5]) (Some [mkR (-3) (-1)]) (Some [mkR 2 3]) None
+                         (Some "Europe/Berlin").
+Example c15_ex_leap_day_inside :   (* Thu 2024-02-29 08:00:00Z = 09:00 Berlin, day -1 of a 29-day month *)
+  contains ex_tz ex_ti 1709193600 0 = true /\ civil_fields (1709193600 + 3600) = mkCivil 2024 2 29 4 540.
+Proof. vm_compute. split; reflexivity. Qed.
+Example c15_ex_one_minute_early : contains ex_tz ex_ti (1709193600 - 60) 0 = false.
+Proof. vm_compute. reflexivity. Qed.
+Example c15_ex_end_exclusive :     (* 17:00 Berlin is outside, 16:59 inside *)
+  contains ex_tz ex_ti (1709193600 + 8 * 3600) 0 = false /\ contains ex_tz ex_ti (1709193600 + 8 * 3600 - 60) 0 = true.
+Proof. vm_compute. split; reflexivity. Qed.
+Example c15_ex_feb_26_outside_27_inside :  (* -3 resolves to the 27th in February 2024 *)
+  contains ex_tz ex_ti (1709193600 - 3 * 86400) 0 = false /\ contains ex_tz ex_ti (1709193600 - 2 * 86400) 0 = true.
+Proof. vm_compute. split; reflexivity. Qed.
+Example c15_ex_dst :               (* Fri 2024-03-29 and Mon 2024-04-01..: after the switch 07:00Z is 09:00 local *)
+  contains ex_tz ex_ti 1711699200 0 = true (* Fri 2024-03-29 08:00Z = 09:00 CET *) /\
+  contains ex_tz (mkTI (Some [mkR 540 1020]) None None None None (Some "Europe/Berlin")) 1711954800 0 = true
+  (* Mon 2024-04-01 07:00Z = 09:00 CEST *) /\
+  contains ex_tz (mkTI (Some [mkR 540 1020]) None None None None (Some "Europe/Berlin")) (1711954800 - 60) 0 = false.
+Proof. vm_compute. repeat split; reflexivity. Qed.
+Example c15_ex_day_31_skipped_in_short_month :  (* days_of_month 31:31 in April: begin > dim -> continue *)
+  contains ex_tz (mkTI None None (Some [mkR 31 31]) None None None) 1714435200 0 = false (* 2024-04-30 *) /\
+  contains ex_tz (mkTI None None (Some [mkR 30 31]) None None None) 1714435200 0 = true.
+Proof. vm_compute. split; reflexivity. Qed.
+Example c15_ex_roundtrip_far : civil_of_days (-1000000) = (-768, 2, 4) /\ days_of_civil (-768) 2 4 = -1000000.
+Proof. vm_compute. split; reflexivity. Qed.
+
+Definition ex_m : intervals :=
+  [("offhours", [mkTI (Some [mkR 0 540; mkR 1020 1440]) None None None None (Some "Europe/Berlin")]);
+   ("weekends", [mkTI None (Some [mkR 6 6; mkR 0 0]) None None None (Some "Europe/Berlin")]);
+   ("business", [mkTI (Some [mkR 540 1020]) (Some [mkR 1 5]) None None None (Some "Europe/Berlin")])].
+Example c15_ex_gating_known : all_known ex_m ["offhours"; "weekends"] /\ all_known ex_m ["business"].
+Proof. split; intros n Hn; simpl in Hn; intuition (subst; discriminate). Qed.
+Example c15_ex_gating_runs :
+  let x now := mkCtx (Some "r") (Some "g") (Some ["offhours"; "weekends"]) (Some ["business"]) (Some now) in
+  time_stages ex_tz ex_m (x 1709193600) None = (true, None, Some [])            (* Thu 09:00: notifies *) /\
+  time_stages ex_tz ex_m (x (1709193600 - 60)) None = (false, None, Some ["business"])  (* 08:59: not active *) /\
+  time_stages ex_tz ex_m (x (1709193600 + 2 * 86400)) (Some []) = (false, None, Some ["business"]) (* Saturday *) /\
+  time_stages ex_tz ex_m (mkCtx (Some "r") (Some "g") (Some ["offhours"; "weekends"]) (Some []) (Some (1709193600 + 2 * 86400 + 43200)))
+              None = (false, None, Some ["offhours"; "weekends"])                 (* Saturday 21:00, no active list *).
+Proof. vm_compute. repeat split; reflexivity. Qed.
+
+Print Assumptions c15_civil_roundtrip_days.
+Print Assumptions c15_civil_step.
+Print Assumptions c15_contains_spec.
+Print Assumptions c15_gating.
